@@ -230,6 +230,16 @@ def check_batch(o):
             if not L.close(vec(m.instance(wf[:j].copy())), vec(m.instance(wf.copy())), 1e-9):
                 bad.append((tag + ": instance() with %d of %d weights is not the instance with the missing weights set to zero" % (j, k), {}, None))
                 break
+        # weights in units of standard deviations (normalized_weights=True) are the plain weights times sqrt(eigenvalue) - for the
+        # vector AND the object form of every model
+        wn = rng.randint(1, 4, size=k).astype(float)
+        try:
+            a_n = vec(m.instance(wn.copy(), normalized_weights=True))
+            a_p = vec(m.instance(wn * np.sqrt(np.asarray(m._eigenvalues[:k], dtype=float))))
+            if not L.close(a_n, a_p, 1e-8):
+                bad.append((tag + ": instance(w, normalized_weights=True) is not instance(w * sqrt(eigenvalues))", {}, None))
+        except Exception as e:
+            bad.append((tag + ": instance(w, normalized_weights=True) raised %s" % type(e).__name__, {"msg": str(e)[:100]}, None))
         if tag.startswith("PCAVectorModel") and k >= 2:
             Wm = rng.randint(-3, 4, size=(3, k - 1)).astype(float)
             many = np.asarray(m.instance_vectors(Wm.copy()))
@@ -301,14 +311,19 @@ def check_incr(o):
     #  with an IndexError on the pinned tree: an input-form defect outside what C11 states - observed, not judged)
     # "(refused calls between)": before every increment the model is offered data it must refuse (wrong number of features, a bare
     # 1-D vector); a call that raises must leave the model exactly as it was
+    # "(one running iterator)": the samples come from ONE iterator that the model and every increment consume with n_samples
     kinds = ["PCAVectorModel", "PCAVectorModel (view narrowed)", "PCAVectorModel (list increments)", "PCAVectorModel (refused calls between)"] + \
-            (["PCAModel"] if X.shape[1] % 2 == 0 else [])
+            (["PCAModel", "PCAModel (one running iterator)"] if X.shape[1] % 2 == 0 else [])
     for tag in kinds:
         narrowed = tag.endswith("(view narrowed)")
-        wrap = (lambda A: [PointCloud(x.reshape(-1, 2)) for x in A]) if tag == "PCAModel" else (lambda A: A.copy())
-        ctor = PCAModel if tag == "PCAModel" else PCAVectorModel
+        wrap = (lambda A: [PointCloud(x.reshape(-1, 2)) for x in A]) if tag.startswith("PCAModel") else (lambda A: A.copy())
+        ctor = PCAModel if tag.startswith("PCAModel") else PCAVectorModel
         a = comp[0]
-        m = ctor(wrap(X[:a]), centre=centre) if tag == "PCAModel" else ctor(X[:a].copy(), centre=centre, inplace=False)
+        running = iter(wrap(X)) if tag.endswith("(one running iterator)") else None
+        if running is not None:
+            m = ctor(running, centre=centre, n_samples=a)
+        else:
+            m = ctor(wrap(X[:a]), centre=centre) if tag == "PCAModel" else ctor(X[:a].copy(), centre=centre, inplace=False)
         for k, st in enumerate(o["steps"]):
             n, mean, C = _stats(st)
             kind = None
@@ -333,7 +348,9 @@ def check_incr(o):
                             break
                     if stop:
                         break
-                if tag.endswith("(list increments)"):
+                if running is not None:
+                    m.increment(running, n_samples=comp[k])
+                elif tag.endswith("(list increments)"):
                     m.increment([row.copy() for row in X[a:a + comp[k]]])          # the samples as a plain list of vectors
                 elif tag.endswith("(iterator + n_samples)"):
                     m.increment((row.copy() for row in X[a:a + comp[k]]), n_samples=comp[k])
